@@ -9,6 +9,7 @@ recovery the property describes and the comparison of every destination branch's
 run of the same history. A World cannot be forked, so every fault point re-runs its history from scratch."""
 import json
 import os
+import re
 import sys
 import time
 from multiprocessing import Pool
@@ -29,9 +30,16 @@ ASSUMPTIONS = [
     'non-forced push are axioms of Model/Git validated by the real-git runs',
     'the changes of a pull request are, in the theorems, the commits below its source tip; in the tie, the files '
     'its source branch added (each history gives every pull request files of its own)',
-    'recovery: proved for the direct merge in no-queue mode, the job dying anywhere before its publishing push with any '
-    'subset of the integration branches already pushed, the re-delivered run getting through its gates and merges '
-    '(C02_recovery_direct_partial); skip-queue mode, queue mode and the clean-up jobs are validated by the tie only',
+    'recovery, proved on the model: direct merge in every mode (no-queue: C02_recovery_direct_partial; queues enabled with '
+    'skip_queue_when_not_needed, the plan deleting the q/ branches before the publishing push: C02_recovery_skipqueue), '
+    'the job dying anywhere before its publishing push with any subset of the integration branches pushed and any '
+    'subset of the q/ branches deleted, the re-delivered run getting through its gates and merges; queue merge and '
+    'clean-up jobs (one atomic push: applied = the uninterrupted remote, else not applied at all and the same plan '
+    'again: C02_recovery_queue_merge, C02_recovery_cleanup); add_to_queue: C02_recovery_enqueue_queued (found queued), '
+    'C02_recovery_enqueue_first_partial (nothing else queued: rebuild_queues + re-delivery), C02_recovery_enqueue_partial '
+    '(non-empty queue: that the re-submitted pull requests rebuild queue branches of the same content is a hypothesis); '
+    'WHICH path the fresh Bert-E takes (QueueCollection.validate -> QueueOutOfOrder / IncoherentQueues) is not in the '
+    'model: validated by this tie only (work package QValidate)',
 ]
 TRUSTED = [
     'Lean 4 kernel; axioms of every theorem audited (subset of propext, Classical.choice, Quot.sound)',
@@ -199,10 +207,49 @@ def model_fault_line(hist, pt, ops):
     return 'C02 %s;%s' % (f, ';'.join([hist['init_item']] + before + hist['items'][n]))
 
 
+def deletion_block_line(line, pt, ops):
+    """The direct merge with the queue skipped deletes every q/ branch, one `git push origin :q/<v>` each. The code
+    deletes them in cascade order, the model lists the same deletions in the order of its ref map: independent
+    operations, and the theorems (C02_recovery_skipqueue, C02_prefix_safe) quantify over every prefix and over a
+    refusal per operation, i.e. over every SUBSET of deleted q/ branches. A fault inside the block is therefore
+    put to the model by the set of q/ branches the real job had deleted: `crashrej K i=ref,...` = every deletion
+    attempted, those of the other refs refused, the publishing push not attempted. Faults outside the block (and
+    blocks of fewer than two deletions) keep their positional form."""
+    from .histories import ref_code
+    gits = [k for k, o in enumerate(ops) if branch_op(o)]
+    dels = [(gi, ref_code(re.search(r' origin :(q/[0-9.]+)', ops[k]['what']).group(1)))
+            for gi, k in enumerate(gits) if re.search(r' origin :q/[0-9.]+', ops[k]['what'])]
+    if len(dels) < 2 or line is None:
+        return line
+    first, last = dels[0][0], dels[-1][0]
+    if pt['kind'] == 'crash':
+        g = sum(1 for k in gits if k < pt['k'])
+        if g <= first or g > last:
+            return line                       # none, or all, of the deletions done: no order involved
+        done = {r for gi, r in dels if gi < g}
+    else:
+        if pt['k'] not in gits:
+            return line
+        gi = gits.index(pt['k'])
+        if gi < first or gi > last:
+            return line
+        done = {r for g2, r in dels if g2 < gi}   # the refused deletion stops the job
+    rest = line.split(';', 1)[1]
+    ans = common.Model().ask(['C02 none;' + rest])[0]
+    if ans.startswith('bad-op'):
+        return line
+    kinds = ans.split(';')[0][len('ops='):].split(':', 1)[1].split(',')
+    mdels = [(i, k[len('delete='):]) for i, k in enumerate(kinds) if k.startswith('delete=')]
+    if sorted(r for _, r in mdels) != sorted(r for _, r in dels) or len(kinds) != len(gits):
+        return line                           # not the same operations: let the positional comparison say so
+    spec = ','.join('%d=%s' % (i, r) for i, r in mdels if r not in done)
+    return 'C02 crashrej %d %s;%s' % (mdels[-1][0] + 1, spec, rest)
+
+
 def parse_model_fault(ans):
     from .histories import parse_model_obs
     head, before, after = ans.split(';')
-    nops, kinds = head[len('ops='):].split(':')
+    nops, kinds = head[len('ops='):].split(':', 1)
     b = parse_model_obs(before)[1]
     a = parse_model_obs(after)[1]
     out = {}
@@ -260,7 +307,7 @@ def run_fault(hist, pt, use_model, base):
     # model
     res['model'] = None
     if use_model:
-        line = model_fault_line(hist, pt, want_ops)
+        line = deletion_block_line(model_fault_line(hist, pt, want_ops), pt, want_ops)
         if line is not None:
             ans = common.Model().ask([line])[0]
             if ans.startswith('bad-op'):
@@ -299,6 +346,80 @@ def _phase_b(args):
     except Exception:
         import traceback
         return {'pt': pt, 'i': hist['i'], 'error': traceback.format_exc()[-3000:]}
+
+
+# ----------------------------------------------------------------------------- which recovery theorem a fault point exercises
+
+def mode_of(cfg):
+    return 'noqueue' if not cfg.get('use_queue') else ('queue-skip' if cfg.get('skip_queue') else 'queue')
+
+
+def recovery_class(hist, pt):
+    """(class, detail): the kind of job that the fault interrupts, as the recovery theorems of Props/C02.lean
+    divide them (direct merge without queues / with the queue skipped, add_to_queue, queue merge, clean-up jobs),
+    and where inside the job's operations the fault sits (None when that is of no particular interest)."""
+    jobs = hist['per_event'].get(pt['n'], {}).get('jobs', [])
+    if pt['j'] >= len(jobs):
+        return 'other', None
+    job = jobs[pt['j']]
+    ops, st, desc = job['ops'], job['status'], job['desc']
+    cfg = hist['cfg']
+
+    def git_op(i):
+        return ops[i]['kind'] == 'git'
+    atomic = [i for i in range(len(ops)) if git_op(i) and '--atomic' in ops[i]['what']]
+    qdels = [i for i in range(len(ops)) if git_op(i) and re.search(r' origin :q/', ops[i]['what'])]
+    qnew = [i for i in range(len(ops)) if git_op(i) and re.search(r" origin '?q/[0-9.]+'?$", ops[i]['what'])]
+    final = [i for i in range(len(ops)) if git_op(i) and ' origin ' in ops[i]['what'] and "q/w/" in ops[i]['what']]
+    k = pt['k']
+    detail = None
+    if st == 'SuccessMessage':
+        cls = 'direct_merge_noqueue' if not cfg.get('use_queue') else 'direct_merge_queue_skipped'
+        if atomic and pt['kind'] == 'crash' and qdels and min(qdels) < k <= atomic[-1]:
+            detail = 'crash_between_q_deletion_and_publishing_push'
+        elif pt['kind'] == 'reject' and k in qdels:
+            detail = 'q_deletion_refused'
+        elif atomic and pt['kind'] == 'reject' and k == atomic[-1]:
+            detail = 'ref_of_publishing_push_refused'
+        elif atomic and pt['kind'] == 'crash' and k <= atomic[-1]:
+            detail = 'crash_before_publishing_push'
+    elif st == 'Queued':
+        cls = 'add_to_queue'
+        if final and pt['kind'] == 'reject' and k == final[-1]:
+            detail = 'qw_ref_of_final_push_refused' if pt['ref'].startswith('q/w/') else 'q_ref_of_final_push_refused'
+        elif final and pt['kind'] == 'crash' and qnew and min(qnew) < k <= final[-1]:
+            detail = 'crash_between_q_creation_and_final_push'
+        elif final and pt['kind'] == 'crash' and k <= final[-1]:
+            detail = 'crash_before_final_push'
+        elif final and pt['kind'] == 'crash':
+            detail = 'crash_after_final_push'
+    elif st == 'Merged':
+        cls = 'queue_merge'
+        if atomic and pt['kind'] == 'reject' and k == atomic[-1]:
+            detail = 'ref_of_publishing_push_refused'
+        elif atomic and pt['kind'] == 'crash' and k <= atomic[-1]:
+            detail = 'crash_before_publishing_push'
+    elif st == 'ResetComplete':
+        cls = 'cleanup_reset'
+    elif st == 'PullRequestDeclined':
+        cls = 'cleanup_declined'
+    elif desc[0] == 'api' and desc[1] in ('RebuildQueuesJob', 'DeleteQueuesJob'):
+        cls = 'cleanup_drop_queues'
+    else:
+        cls = 'other'
+    return cls, detail
+
+
+# what the quick tier must contain (work package Recovery): (class, detail)
+REQUIRED_RECOVERY = [
+    ('direct_merge_queue_skipped', 'crash_between_q_deletion_and_publishing_push'),
+    ('direct_merge_queue_skipped', 'q_deletion_refused'),
+    ('add_to_queue', 'q_ref_of_final_push_refused'),
+    ('add_to_queue', 'qw_ref_of_final_push_refused'),
+    ('add_to_queue', 'crash_between_q_creation_and_final_push'),
+    ('queue_merge', 'ref_of_publishing_push_refused'),
+    ('cleanup_reset', None), ('cleanup_declined', None), ('cleanup_drop_queues', None),
+]
 
 
 # ----------------------------------------------------------------------------- verdicts
@@ -373,7 +494,7 @@ def correspondence(ctx):
     base = common.scratch()
     use_model = ctx.model is not None
     hists = []
-    # corpus first: {'cfg', 'events', 'closing', 'fault'?}
+    # corpus first: {'cfg', 'events', 'closing', 'fault'?, 'fault_events'?}
     cdir = os.path.join(common.CORPUS_DIR, PID)
     corpus = []
     if os.path.isdir(cdir):
@@ -399,6 +520,8 @@ def correspondence(ctx):
             o.update(i='corpus:' + fn, mode='corpus', cfg=cfg.as_dict(), events=h['events'],
                      closing=h.get('closing', []))
             o['points'] = [h['fault']] if h.get('fault') else fault_points(o, len(h['events']))
+            if h.get('fault_events') is not None:      # a scripted history: only the jobs of these events are faulted
+                o['points'] = [pt for pt in o['points'] if pt['n'] in h['fault_events']]
             hists.insert(0, o)
         by_i = {h['i']: h for h in hists}
         tasks = [(h, pt, use_model, base) for h in hists for pt in h['points']]
@@ -424,6 +547,7 @@ def correspondence(ctx):
                                       'at': 'uninterrupted event %s' % h['disagreement'].get('at')})
         for s in h['statuses']:
             res.count('status:' + s)
+    seen_classes = set()
     for r in outs:
         h = by_i[r['i']]
         res.evaluations += 1
@@ -451,6 +575,13 @@ def correspondence(ctx):
             res.model_compared += 1
             res.count('model_compared_faults')
         res.distinct.add(json.dumps([r['i'], pt], sort_keys=True))
+        cls, detail = recovery_class(h, pt)
+        res.count('fault_points_by_mode:%s:%s' % (mode_of(h['cfg']), pt['kind']))
+        res.count('recovery_class:%s:%s' % (cls, pt['kind']))
+        if detail:
+            res.count('recovery_point:%s:%s' % (cls, detail))
+        seen_classes.add((cls, None))
+        seen_classes.add((cls, detail))
         judge(h, r, res)
         if len(res.samples) < 6 and r['kinds']:
             res.samples.append({'history': r['i'], 'event': h['events'][pt['n']], 'fault': pt,
@@ -462,8 +593,18 @@ def correspondence(ctx):
     gittie.run(ctx, res, (16 if quick else 400) * ctx.scale, oracles=('atomic',))
     res.extra['histories'] = len(hists)
     res.extra['fault_points'] = len(outs)
+    # the situations of the recovery theorems that every run must exercise (scripted corpus histories provide them)
+    missing = ['%s/%s' % c for c in REQUIRED_RECOVERY if c not in seen_classes]
+    res.extra['recovery_situations_required'] = len(REQUIRED_RECOVERY)
+    res.extra['recovery_situations_missing'] = missing
+    for m in missing:
+        res.count('recovery_situation_not_exercised:' + m)
     res.extra['phase_a_s'] = round(t1 - t0, 1)
     res.extra['phase_b_s'] = round(time.time() - t1, 1)
+    # what protects the destinations after an interrupted add_to_queue: the real QueueCollection.validate() +
+    # merge_queues on corrupted / half-written queues against Model/QValidate.lean (C02_validated_or_nothing)
+    from . import qvalidate
+    res.merge(qvalidate.phase(ctx, PID))
     res.exhaustive = False
     return res
 
@@ -474,6 +615,10 @@ def replay(ctx, payload):
     g = gittie.replay_input(payload)
     if g is not None:
         return gittie.replay(ctx, Result(), g, oracles=('atomic',))
+    from . import qvalidate
+    q = qvalidate.replay_input(payload)
+    if q is not None:
+        return qvalidate.replay(ctx, q)
     f = payload['failure'] if 'failure' in payload else payload
     inp = f['input']
     res = Result()
